@@ -104,11 +104,11 @@ def _install_hook():
 # ---------------------------------------------------------------------------------------------
 
 def n_cases(tier):
-    return 2400 if tier == "quick" else 60000
+    return 3000 if tier == "quick" else 48000
 
 
 def budget_s(tier):
-    return 120 if tier == "quick" else 900
+    return 150 if tier == "quick" else 1500
 
 
 GENERATED_LOOKUP_NAMES = ["kern_Latn", "kern_Latn", "kern_Default", "kern_Latn_marks",
@@ -220,6 +220,21 @@ def _texts(ls):
 
 
 def run(case):
+    # ufo2ft writes the feature text to a NamedTemporaryFile(delete=False) when feaLib rejects
+    # it; point the tempfile module at a scratch directory that is removed afterwards
+    import shutil
+    import tempfile
+    scratch = tempfile.mkdtemp(prefix="vf_c17_")
+    old = tempfile.tempdir
+    tempfile.tempdir = scratch
+    try:
+        return _run(case)
+    finally:
+        tempfile.tempdir = old
+        shutil.rmtree(scratch, ignore_errors=True)
+
+
+def _run(case):
     counters = {}
 
     def bump(k, n=1):
